@@ -23,6 +23,18 @@ def beBytes : Nat → Nat → Bytes
   | 0, _ => []
   | k+1, n => beBytes k (n / 256) ++ [byteOfNat n]
 
+/-- `l.length < n`, looking at no more than `n` cells (the readers below test the remaining input against a
+    frame length once per element: with `List.length` that would be quadratic in the number of elements) -/
+def shorter {α : Type} : List α → Nat → Bool
+  | _, 0 => false
+  | [], _+1 => true
+  | _ :: r, n+1 => shorter r n
+
+theorem shorter_iff {α : Type} (l : List α) (n : Nat) : shorter l n = true ↔ l.length < n := by
+  induction l generalizing n with
+  | nil => cases n <;> simp [shorter]
+  | cons a r ih => cases n <;> simp [shorter, ih]
+
 /-- big-endian value of a byte string -/
 def beNat (b : Bytes) : Nat := b.foldl (fun a x => a * 256 + x.toNat) 0
 
@@ -229,25 +241,25 @@ def minimalTC : Bytes → Bool
 
 def readCount (p : Nat) (b : Bytes) : Option (Nat × Bytes) :=
   if p ≥ 3 then
-    (if b.length < 4 then none else
+    (if shorter b 4 then none else
       let n := tcDec (b.take 4)
       if n < 0 then none else some (n.toNat, b.drop 4))
   else
-    (if b.length < 2 then none else some (beNat (b.take 2), b.drop 2))
+    (if shorter b 2 then none else some (beNat (b.take 2), b.drop 2))
 
 /-- one framed element: (`none` = null, rest) -/
 def readElem (p : Nat) (b : Bytes) : Option (Option Bytes × Bytes) :=
   if p ≥ 3 then
-    (if b.length < 4 then none else
+    (if shorter b 4 then none else
       let n := tcDec (b.take 4)
       let r := b.drop 4
       if n < 0 then (if n = -1 then some (none, r) else none)
-      else if r.length < n.toNat then none else some (some (r.take n.toNat), r.drop n.toNat))
+      else if shorter r n.toNat then none else some (some (r.take n.toNat), r.drop n.toNat))
   else
-    (if b.length < 2 then none else
+    (if shorter b 2 then none else
       let n := beNat (b.take 2)
       let r := b.drop 2
-      if r.length < n then none else some (some (r.take n), r.drop n))
+      if shorter r n then none else some (some (r.take n), r.drop n))
 
 def readBytesFrame (b : Bytes) : Option (Option Bytes × Bytes) := readElem 3 b
 
